@@ -85,7 +85,7 @@ func (r *scriptedReader) end() error {
 
 // --- value generation (shared with C06) ---
 
-var bulkLens = []int{0, 1, 2, 3, 5, 16, 255, 256, 4095, 4096, 65535, 65536, 65537, 131075}
+var bulkLens = []int{0, 1, 2, 3, 5, 16, 255, 256, 4095, 4096, 65535, 65536, 65537, 131075, 131071, 131072, 131073, 262143, 262144, 262145, 524287}
 var payloadPool = []string{"\r", "\n", "\r\n", "\x00", "+", "-", ":", "$", "*", "\r\n+OK\r\n", "$-1\r\n", "*0\r\n", ":1\r\n", "abc", "0", "-1"}
 
 // lineLens: lengths of long line-framed values (simple strings, errors) around powers of two and around small
@@ -458,7 +458,7 @@ func init() {
 	register(&Check{
 		ID: "C02", Bubble: false, Run: runC02,
 		Runs:   map[string]int{"quick": 6000, "thorough": 200000},
-		Rule:   "a case is one (value sequence, read partition) pair: every 2-way split and the all-1-byte delivery of each generated stream <= 4 KiB plus 4 seeded k-way partitions biased to structural offsets; for streams with bulks of 1 KiB..128 KiB every split within [-20,+4] bytes of each power-of-two offset of the payload; every split is also delivered through a bufio.Reader (16-byte and default buffer) or a reader that also reports Len() in front of the chunking reader with the returned messages inspected only after the whole stream was parsed (a parsed value must not change when the parser reads on), end of stream arriving alone or together with the last bytes; one line-framed value in sixteen is 255..131070 bytes long (powers of two +-1 and small multiples of 2^k-1); deliveries with 1..3 empty reads (0 bytes, no error) in front of every data read; distinct = distinct (stream, partition) hashes; non-trivial = stream longer than 4 bytes",
+		Rule:   "a case is one (value sequence, read partition) pair: every 2-way split and the all-1-byte delivery of each generated stream <= 4 KiB plus 4 seeded k-way partitions biased to structural offsets; for streams with bulks of 1 KiB..512 KiB (2^k-1, 2^k, 2^k+1 up to k=19) every split within [-20,+4] bytes of each power-of-two offset of the payload; every split is also delivered through a bufio.Reader (16-byte and default buffer) or a reader that also reports Len() in front of the chunking reader with the returned messages inspected only after the whole stream was parsed (a parsed value must not change when the parser reads on), end of stream arriving alone or together with the last bytes; one line-framed value in sixteen is 255..131070 bytes long (powers of two +-1 and small multiples of 2^k-1); deliveries with 1..3 empty reads (0 bytes, no error) in front of every data read; distinct = distinct (stream, partition) hashes; non-trivial = stream longer than 4 bytes",
 		Real:   []string{"redis/proto parser (NewParserWithReader, Next)"},
 		Stub:   []string{"transport: scripted io.Reader deciding read sizes and end-of-stream style"},
 		Assume: []string{"readers never return (0, nil)"},
